@@ -14,7 +14,7 @@ EXPLANATION = (
     "evaluate to 1024 and 65536.  R3 (allocation proportional to input): in Delta::read_impl every buf.push is paired with a "
     "successful read_int in the same loop, and the id conversions are range-checked (TypeIdRange, IdRange, NegativeSize, "
     "TooLongDiff clauses present).  R4: a delta that resizes an existing item is refused before apply_item_delta (the guard added "
-    "by the D13 repair).  Not decided: `written out and read back equal` (value level)."
+    "by the D13 repair).  R2b: both limit tests are about the snapshot after the insertion (num_items + 1; the same offset + size that becomes the new range's end).  Not decided: `written out and read back equal` (value level)."
 )
 ASSUMPTIONS = [
     "std collections do not panic outside the listed APIs; allocation failure is out of scope",
